@@ -143,6 +143,16 @@ Definition cover (C : cfg) (r : rstate) (k : kst) (t : fs) (d : bytes) : Prop :=
                  alookup N.eqb (kw_wd w) (pfw r) = Some d /\ alookup beqb d (wfp r) = Some (kw_wd w)
   else watch_of_ino k (ino_of t d) = None.
 
+(* a path is a parent path not ending in "/" followed by "/" and a valid file name; every entry of a
+   well-formed tree has such a path *)
+Definition wf_path (y : bytes) : Prop :=
+  exists d n, y = d ++ sep :: n /\ last_is_sep d = false /\ valid_name n = true.
+
+(* executable version: split at the last "/" *)
+Definition path_dir (y : bytes) : bytes := rev (tl (drop_to_sep_rev (rev y))).
+Definition wf_pathb (y : bytes) : bool :=
+  beqb y (path_dir y ++ sep :: basename y) && negb (last_is_sep (path_dir y)) && valid_name (basename y).
+
 (* ------------------------------------------------------------------ justification (pipeprops.justified) *)
 (* what the oracle records about an executed operation, captured before it runs *)
 Record oprec := {
